@@ -1,7 +1,9 @@
 """C05 — each edit has exactly its documented effect (refinement of the executable spec = the Lean model)."""
 from .. import dhg as MD
 from .. import hg as MH
+from .. import sc as MS
 from .c02 import FULL as FIELDS_D, derive as derive_d
+from .c03 import FIELDS as FIELDS_S
 from ..core import unlisted_violations  # noqa: E402
 from ..core import TRUSTED_COMMON, build_and_audit, finish
 from ..sm import run_sm
@@ -92,6 +94,15 @@ def run(ctx):
     for d in ctx.extra.get("disagreements", [])[n0:]:
         ctx.violation("DiHypergraph." + d["ops"][-1]["op"], "differs-from-spec:" + ",".join(d["fields"]),
                       {"class": "DiHypergraph", "ops": d["ops"]}, detail=f"model {d['model']} impl {d['impl']}"[:600])
+    # simplicial class: the model of C03 (lean/XgiModel/C03/SC.lean), full snapshot
+    n1 = len(ctx.extra.get("disagreements", []))
+    ok_s = build_and_audit_extra(ctx, ["XgiModel.C03.Drive"])
+    run_sm(ctx, MS, "SC", FIELDS_S, lambda *a: [], ctx.n(60, 2500), hist_len=(1, 18), model_ok=ok_s,
+           corr_name="refinement SC~SimplicialComplex (full snapshot)")
+    for d in ctx.extra.get("disagreements", [])[n1:]:
+        ctx.violation("SimplicialComplex." + d["ops"][-1]["op"], "differs-from-spec:" + ",".join(d["fields"]),
+                      {"class": "SimplicialComplex", "ops": d["ops"]}, detail=f"model {d['model']} impl {d['impl']}"[:600])
+    ok = ok and ok_d and ok_s
     if not ok and not unlisted_violations(ctx):
         ctx.violation("model-tie", "unproven", {"broken": ctx.broken}, detail="; ".join(ctx.broken)[:500], kind="unproven", broken=ctx.broken)
     ctx.assumptions = ["IDs restricted to int/str/tuple-of-atoms/None", "attribute dict key order is not compared (merge rule 'union' iterates a set of strings)",
